@@ -28,7 +28,9 @@ ASSUMPTIONS = [
 
 KEYS = ["a", "b", "c", "port", "host", "name_1", "x-y", "enabled"]
 TABLES = ["server", "client", "t", "u"]
-STRS = ["", "x", "hello world", "a#b", "a = b", 'q"uote', "[x]", "back\\slash", "ünï", "日本", "#lead", "tab\there", "'single'", "a,b", "{}"]
+STRS = ["", "x", "hello world", "a#b", "a = b", 'q"uote', "[x]", "back\\slash", "ünï", "日本", "#lead", "tab\there", "'single'", "a,b", "{}",
+        # one-line TOML strings may contain these separators raw; str.splitlines() would break the line there
+        "{app}\u2028[{title}]", "a\x85[b]", "x\u2029y", "\x0b[v]"[1:], "fs\x1c"[:2]]
 
 
 def budget(tier):
